@@ -2075,3 +2075,121 @@ def c14_checks(repo: Repo, tier: str, res: CheckResult, seed: int) -> None:
                             f"{r['src']} -> {r['dst']}: the source container is handed over unchanged although its class need not "
                             "be the destination's (a MappingProxyType is not a dict, a tuple is not a list)", 0))
     res.count("SOUND.type-pairs", n, 40)
+
+
+# ================================================================================================ C16: generic models (tier G)
+_G_IMPLICIT = {"T": "Any", "U": "Any", "V": "Any", "B": "Book", "C": "Union[str, bytes]", "N": "int"}
+_G_LOADER = {"int": "int_strict_coercion_loader", "str": "str_strict_coercion_loader", "bool": "bool_strict_coercion_loader",
+             "float": "float_strict_coercion_loader", "Decimal": "decimal_strict_coercion_loader", "bytes": "bytes_base64_loader",
+             "Any": "<lambda>", "Book": "model_loader_Book"}
+_G_DUMPER = {"Decimal": "__str__", "bytes": "bytes_base64_dumper", "Book": "model_dumper_Book"}
+_G_TOP = {"List": "iter_", "Dict": "dict_", "Optional": "optional", "Union": "union"}
+
+
+def _g_subst(expr: str, pm: Dict[str, str]) -> str:
+    return re.sub(r"[A-Za-z_]\w*", lambda mt: pm.get(mt.group(0), mt.group(0)), expr)
+
+
+def _g_split_args(s: str) -> List[str]:
+    out, depth, cur = [], 0, ""
+    for ch in s:
+        if ch == "[":
+            depth += 1
+        if ch == "]":
+            depth -= 1
+        if ch == "," and depth == 0:
+            out.append(cur.strip())
+            cur = ""
+        else:
+            cur += ch
+    if cur.strip():
+        out.append(cur.strip())
+    return out
+
+
+def _g_resolve(classes: Dict[str, Tuple], name: str, args: List[str]) -> Dict[str, str]:
+    """field -> annotation with every type variable replaced, written from the property statement: bases are resolved with the
+    arguments the child passes, the child's own annotation overrides (shadows) an inherited one, a bare generic uses the
+    documented implicit parameters"""
+    params, bases, fields = classes[name]
+    if params and not args:
+        args = [_G_IMPLICIT[p] for p in params]
+    pm = dict(zip(params, args))
+    out: Dict[str, str] = {}
+    for bname, bargs in reversed(bases):
+        out.update(_g_resolve(classes, bname, [_g_subst(a, pm) for a in bargs]))
+    for f, t in fields.items():
+        out[f] = _g_subst(t, pm)
+    return out
+
+
+def _g_leaves(texpr: str, table: Dict[str, str]) -> List[str]:
+    texpr = texpr.strip()
+    mt = re.fullmatch(r"(\w+)\[(.*)\]", texpr)
+    if mt:
+        out: List[str] = []
+        for a in _g_split_args(mt.group(2)):
+            out += _g_leaves(a, table)
+        return out
+    if texpr == "Book" and table is _G_LOADER:
+        return ["model_loader_Book", "str_strict_coercion_loader"]
+    return [table[texpr]] if texpr in table else []
+
+
+def _g_flat(d: dict) -> List[str]:
+    out = [d["q"].split(".")[-1]]
+    for c in d.get("cells", []):
+        out += _g_flat(c)
+    return out
+
+
+def c16_checks(repo: Repo, tier: str, res: CheckResult, seed: int) -> None:
+    recs = [r for r in run_child(repo, tier, seed, "generics") if r.get("kind") == "generics"]
+    GR = "adaptix/_internal/type_tools/generic_resolver.py"
+    n = n_fields = 0
+    known_l = set(_G_LOADER.values())
+    known_d = set(_G_DUMPER.values())
+    for r in recs:
+        if r.get("harness_error"):
+            raise AnalysisError(f"generics harness failed ({r.get('spec')}, {r.get('query')}): {r['harness_error']}")
+        classes = {c[0]: (c[1], [(b[0], b[1]) for b in c[2]], c[3]) for c in r["classes"]}
+        q = r["query"]
+        mt = re.fullmatch(r"(\w+)(?:\[(.*)\])?", q)
+        cname, args = mt.group(1), _g_split_args(mt.group(2) or "")
+        want = _g_resolve(classes, cname, args)
+        n += 1
+        res.evaluated(f"G:generics:{r['spec']}:{q}", True)
+        for what, table, known in (("loader", _G_LOADER, known_l), ("dumper", _G_DUMPER, known_d)):
+            got = r[what]
+            # (the documented error for non-parametrised generics concerns dump(obj) without a type; get_dumper(A) uses the
+            # implicit parameters like the loader does)
+            if got["error"] is not None:
+                res.add(Finding("C16", "GENERIC.refused", GR, "GenericResolver", f"{r['spec']}:{q}:{what}",
+                                f"no {what} for {q} ({r['spec']}): {got['error']}", 0))
+                continue
+            for f, texpr in want.items():
+                n_fields += 1
+                b = got["bindings"].get(f"{what}_{f}")
+                flat = _g_flat(b) if b is not None else []
+                got_leaves = sorted(x for x in flat if x in known)
+                exp_leaves = sorted(_g_leaves(texpr, table))
+                if what == "dumper":
+                    got_leaves = [x for x in got_leaves if x != "<lambda>"]
+                ok = got_leaves == exp_leaves
+                top_kw = _G_TOP.get(texpr.split("[")[0]) if "[" in texpr else None
+                if ok and top_kw and what == "loader" and not (flat and top_kw in flat[0]):
+                    ok = False
+                if not ok:
+                    res.add(Finding("C16", f"GENERIC.{what}-field-type", GR, "GenericResolver",
+                                    f"{r['spec']}:{q}.{f}: expected {texpr}",
+                                    f"{q} ({r['spec']}): field `{f}` must be {what[:-2]}ed as `{texpr}` (its annotation with the type "
+                                    f"variables substituted through the hierarchy {[c[0] for c in r['classes']]}), but the bound "
+                                    f"{what} is {flat[:6]} (scalar leaves {got_leaves}, expected {exp_leaves})", 0))
+            extra = {k[len(what) + 1:] for k in got["bindings"]} - set(want)
+            if extra:
+                res.add(Finding("C16", f"GENERIC.{what}-field-type", GR, "GenericResolver", f"{r['spec']}:{q}: unexpected fields {sorted(extra)}",
+                                f"{q}: {what} has fields {sorted(extra)} that the hierarchy does not define", 0))
+        if len(res.samples) < 8 and n % 5 == 1:
+            res.sample({"spec": r["spec"], "query": q, "resolved_fields": want, "verdict": "bound loaders/dumpers agree"})
+    res.count("GENERIC.parametrisations", n, 30)
+    res.count("GENERIC.fields", n_fields, 100)
